@@ -640,9 +640,10 @@ pub fn check_workload(w: &Workload, bound: usize, budget: Duration, out: &mut Wo
     let distinct_allowed: BTreeSet<&String> = allowed.iter().map(|a| &a.1).collect();
     let n_allowed = distinct_allowed.len();
     let (mut ex, capped) = explore(w, bound, true, jobs, budget, &allowed, out);
-    if !w.write_set.is_empty() {
-        // a second pass without the registry reduction (every lock is a candidate) at one
-        // preemption: hidden state between two reads of "read-only" registries shows here
+    {
+        // a second pass without the reductions on registry reads (every registry lock is a
+        // candidate) at one preemption: hidden state between two reads of "read-only" registries,
+        // or shared by two evaluations that the reduced pass never interleaves, shows here
         let (ex1, _) = explore(w, 1, false, jobs, budget, &allowed, out);
         out.count(&format!("schedules_unreduced_bound1:{}", w.name), ex1.schedules);
         ex.schedules += ex1.schedules;
@@ -710,7 +711,7 @@ impl Prop for C13 {
     fn run(&self, tier: Tier, stage: usize, _a: u64, _b: u64, out: &mut WorkerOut) {
         let ws = workloads();
         let w = &ws[stage];
-        out.idx = Some(0);
+        out.at(0);
         let jobs = std::env::var("VERIF_JOBS").ok().and_then(|s| s.parse().ok()).unwrap_or_else(|| std::thread::available_parallelism().map(|n| n.get()).unwrap_or(8).clamp(2, 32));
         let bound = bound_for(w, tier);
         let budget = Duration::from_secs(tier.pick(45, 1500));
